@@ -5,7 +5,7 @@
 use crate::fixture::layout_code;
 use crate::memlink::MemLink;
 use crate::peer::{parse_ts_request, ClientMsg, ServerParams};
-use crate::tls::{tls_connect, Cert, ConnCfg};
+use crate::tls::{Cert, ConnCfg};
 use rdp::core::client::RdpClient;
 use rdp::core::event::{KeyboardEvent, PointerButton, PointerEvent, RdpEvent};
 use vref::bytes::{find, utf16le};
@@ -34,7 +34,11 @@ pub struct Transcript {
 }
 
 pub fn converse(cfg: &ConnCfg, params: &ServerParams, cert: Cert, with_inputs: bool) -> Result<Transcript, String> {
-    let t = tls_connect(cfg, params.clone(), vec![], cert)?;
+    converse_fragmented(cfg, params, cert, with_inputs, crate::memlink::ReadPlan::All, crate::memlink::WritePlan::All)
+}
+
+pub fn converse_fragmented(cfg: &ConnCfg, params: &ServerParams, cert: Cert, with_inputs: bool, rp: crate::memlink::ReadPlan, wp: crate::memlink::WritePlan) -> Result<Transcript, String> {
+    let t = crate::tls::tls_connect_fragmented(cfg, params.clone(), vec![], cert, rp, wp)?;
     let mut activation_error = None;
     let mut inputs_sent = 0;
     let mut shutdown_error = None;
